@@ -8,7 +8,7 @@ Cfg(e) == [reg |-> SeqToSet(e.cfg.reg), native |-> SeqToSet(e.cfg.native)]
 Viols(e) ==
   IF e.op.op = "Client" THEN
     LET cf == Cfg(e) c == [kind |-> e.op.kind, extras |-> e.op.extras] IN
-    (IF e.obs.from \notin {UNAUTH, "none"} /\ ~(c.kind = "node" /\ e.obs.auth) THEN {"unauthenticated-connection-from-authenticated-sublistener"} ELSE {}) \cup
+    (IF e.obs.from \notin {UNAUTH, "none"} /\ ~(c.kind \in NodeKinds /\ e.obs.auth) THEN {"unauthenticated-connection-from-authenticated-sublistener"} ELSE {}) \cup
     (IF e.obs.deliveries > 1 THEN {"connection-delivered-more-than-once"} ELSE {}) \cup
     (IF ~AllowedC17(cf, c, e.obs.from, e.obs.native, e.obs.auth) THEN {"routing-or-connection-type"} ELSE {})
   ELSE IF e.op.op = "CloseBase" THEN (IF ~e.obs.allClosed THEN {"sublistener-not-closed-after-base-closed"} ELSE {})
